@@ -40,6 +40,8 @@ pub enum Op {
     Drop(usize),
     /// C15: library operations that build and drop protected outputs
     HighLevel(usize),
+    /// Result-returning deserialisation straight into locked memory (format/type selector, payload length index)
+    Deserialize(usize, usize),
 }
 
 #[derive(Debug, Clone, Copy, PartialEq, Eq, Serialize, Deserialize)]
@@ -49,7 +51,7 @@ pub enum Mode {
     /// release observer: every freed block is all-zero
     C15,
     /// k-th and later mlock refused
-    C19 { refuse_from: i64 },
+    C19 { refuse_from: i64, #[serde(default)] errno: i32 },
 }
 
 #[derive(Debug, Clone, Serialize, Deserialize)]
@@ -267,7 +269,7 @@ fn caught<R>(what: &str, f: impl FnOnce() -> R) -> Result<R, String> {
 
 impl<A: Container> Exec<A> {
     fn refusing_now(&self) -> bool {
-        if let Mode::C19 { refuse_from } = self.mode {
+        if let Mode::C19 { refuse_from, .. } = self.mode {
             return refuse_from > 0 && (MLOCK_CALLS.load(Ordering::SeqCst) as i64 + 1) >= refuse_from;
         }
         false
@@ -711,6 +713,38 @@ impl<A: Container> Exec<A> {
                     caught("high-level operation", || high_level(*which, &mut self.fill))??;
                 }
             }
+            Op::Deserialize(sel, li) => {
+                // serde's Deserialize returns a Result: a refused lock must surface as Err, never as a panic
+                let n = [0usize, 1, 16, 32, 100, 5000][li % 6];
+                let data = pattern(77, *sel, n);
+                let live_before = !live.is_empty();
+                let before_refused = MLOCK_REFUSED.load(Ordering::SeqCst);
+                let r: Result<usize, String> = match sel % 4 {
+                    0 => caught("serde_json -> LockedBytes", || serde_json::from_str::<LockedBytes>(&serde_json::to_string(&data).unwrap()).map(|v| v.len()).map_err(|e| e.to_string()))?,
+                    1 => caught("bincode -> LockedBytes", || bincode::deserialize::<LockedBytes>(&bincode::serialize(&BytesLike(&data)).unwrap()).map(|v| v.len()).map_err(|e| e.to_string()))?,
+                    2 => {
+                        let d32 = pattern(78, *sel, 32);
+                        caught("serde_json -> Locked<HeapByteArray<32>>", || serde_json::from_str::<Locked<HeapByteArray<32>>>(&serde_json::to_string(&d32).unwrap()).map(|v| v.len()).map_err(|e| e.to_string()))?
+                    }
+                    _ => {
+                        let d32 = pattern(79, *sel, 32);
+                        caught("bincode -> Locked<HeapByteArray<32>>", || bincode::deserialize::<Locked<HeapByteArray<32>>>(&bincode::serialize(&BytesLike(&d32)).unwrap()).map(|v| v.len()).map_err(|e| e.to_string()))?
+                    }
+                };
+                match r {
+                    Ok(_) => {}
+                    Err(e) => {
+                        if MLOCK_REFUSED.load(Ordering::SeqCst) > before_refused {
+                            self.stats.err_transitions += 1;
+                            if live_before {
+                                self.stats.fault_reached_with_live_regions = true;
+                            }
+                        } else {
+                            return Err(format!("{step}: deserialising its own encoding into locked memory failed without any injected fault: {e}"));
+                        }
+                    }
+                }
+            }
         }
         match self.mode {
             Mode::C14 => {
@@ -793,6 +827,13 @@ fn is_live_guard(_vmas: &[Vma], _a: usize) -> bool {
     false
 }
 
+struct BytesLike<'a>(&'a [u8]);
+impl serde::Serialize for BytesLike<'_> {
+    fn serialize<S: serde::Serializer>(&self, s: S) -> Result<S::Ok, S::Error> {
+        s.serialize_bytes(self.0)
+    }
+}
+
 fn high_level(which: usize, f: &mut Fill) -> Result<(), String> {
     use dryoc::dryocbox::DryocBox;
     use dryoc::dryocsecretbox::DryocSecretBox;
@@ -844,7 +885,12 @@ fn high_level(which: usize, f: &mut Fill) -> Result<(), String> {
 fn run_typed<A: Container>(h: &History, mode: Mode) -> Result<RunStats, String> {
     MLOCK_CALLS.store(0, Ordering::SeqCst);
     MLOCK_REFUSED.store(0, Ordering::SeqCst);
-    MLOCK_REFUSE_FROM.store(if let Mode::C19 { refuse_from } = mode { refuse_from } else { 0 }, Ordering::SeqCst);
+    if let Mode::C19 { refuse_from, errno } = mode {
+        MLOCK_REFUSE_FROM.store(refuse_from, Ordering::SeqCst);
+        MLOCK_ERRNO.store(if errno == 0 { libc::ENOMEM as i64 } else { errno as i64 }, Ordering::SeqCst);
+    } else {
+        MLOCK_REFUSE_FROM.store(0, Ordering::SeqCst);
+    }
     install_observers();
     let mut ex: Exec<A> = Exec {
         regs: vec![],
@@ -895,7 +941,7 @@ pub enum Outcome {
 }
 
 pub fn run_in_child(h: &History, mode: Mode) -> Outcome {
-    let (code, text) = in_child(60, || match run_history(h, mode) {
+    let (code, text) = in_child(30, || match run_history(h, mode) {
         Ok(st) => (0, serde_json::to_string(&st).unwrap_or_default()),
         Err(m) => {
             if m.starts_with("harness:") {
